@@ -132,11 +132,22 @@ def check_sd(H, b, ctx, replay):
     return nontrivial
 
 
+_N = [0]
+
+
 def check_someip(H, b, ctx, replay):
+    # the bytes reach the decoder the way a socket layer hands them over: as bytes, or - every third time - in a reusable
+    # receive buffer (bytearray) or as a window into one (memoryview)
+    _N[0] += 1
+    given = b
+    if _N[0] % 3 == 0:
+        given = bytearray(b) if _N[0] % 2 else memoryview(bytearray(b))
+        ctx.count("someip_inputs_given_as_a_mutable_buffer")
     try:
-        v, rest = H.SOMEIPHeader.parse(b)
+        v, rest = H.SOMEIPHeader.parse(given)
     except H.ParseError:
         return False
+    rest = bytes(rest)
     ctx.count("accepted_someip")
     consumed = b[: len(b) - len(rest)]
     try:
